@@ -808,6 +808,73 @@ class ToolchainReplay(Bounded):
             shutil.rmtree(top, ignore_errors=True)
 
 
+class RunInvocation(Bounded):
+    """`bfg9000 run` (real driver) starts its command with exactly the configured variables -- also when a toolchain
+    file cleared them all -- and `run -I` with exactly the initial ones; variables of the invoking shell never leak in."""
+    target = 'bfg9000/driver.py::run'
+    properties = ('C09',)
+    reason = 'a child process and two ambient environments: runtime contract on the real driver'
+    native_chunk = 1
+    TOOLCHAINS = {'cleared': "environ.clear()\n", 'one-variable': "environ.clear()\nenviron['ONLY'] = 'set by toolchain'\n",
+                  'added': "environ['ADDED'] = 'x y'\n"}
+
+    def native_inputs(self, case, alphabet, maxlen, rng, extra=0):
+        for k in self.TOOLCHAINS:
+            for initial in (False, True):
+                yield {'toolchain': k, 'initial': initial}
+
+    def native_check(self, case, raw):
+        import os, shutil, subprocess, tempfile
+        from pyvc.interp import REPO
+        top = tempfile.mkdtemp(prefix='pyvc_run_')
+        try:
+            src, b = top + '/src', top + '/b'
+            os.makedirs(src)
+            with open(src + '/build.bfg', 'w') as f:
+                f.write("project('e')\n")
+            with open(src + '/tc.bfg', 'w') as f:
+                f.write(self.TOOLCHAINS[raw['toolchain']])
+            os.makedirs(top + '/bin')
+            lp = top + '/bin/bfg9000'
+            with open(lp, 'w') as f:
+                f.write("#!/bin/sh\nPYTHONPATH=%s exec /venv/bin/python -c 'import sys; sys.argv[0] = \"%s\"; "
+                        "from bfg9000.driver import main; sys.exit(main())' \"$@\"\n" % (REPO, lp))
+            os.chmod(lp, 0o755)
+            base = {'PATH': top + '/bin:/venv/bin:/usr/bin:/bin', 'HOME': '/root'}
+            conf_env = dict(base, AT_CONFIGURE='c-value')
+            r = subprocess.run([lp, 'configure-into', src, b, '--backend=make', '--no-resolve-packages', '--toolchain', src + '/tc.bfg'],
+                               env=conf_env, capture_output=True, text=True, timeout=120)
+            if r.returncode != 0:
+                return self.fail(case, raw, 'configure_succeeds', stderr=r.stderr[-300:])
+            later_env = dict(base, AMBIENT_LATER='leak', AT_CONFIGURE='changed-later')
+            dump = 'import os, json; print(json.dumps(dict(os.environ)))'
+            cmd = [lp, 'run'] + (['-I'] if raw['initial'] else []) + ['-B', b, '/venv/bin/python', '-c', dump]
+            p = subprocess.run(cmd, env=later_env, capture_output=True, text=True, timeout=60, cwd='/')
+            if p.returncode != 0:
+                return self.fail(case, raw, 'run_starts_the_command', stderr=p.stderr[-300:])
+            got = _json.loads(p.stdout.strip().splitlines()[-1])
+            got.pop('LC_CTYPE', None)           # (set by the Python interpreter of the child itself)
+            if raw['initial'] or raw['toolchain'] == 'added':
+                # what the /bin/sh launcher script of this harness adds to the environment bfg9000 itself sees
+                for k in ('PYTHONPATH', 'PWD', 'OLDPWD', 'SHLVL', '_'):
+                    got.pop(k, None)
+            if raw['initial']:
+                want = conf_env
+            elif raw['toolchain'] == 'cleared':
+                want = {}
+            elif raw['toolchain'] == 'one-variable':
+                want = {'ONLY': 'set by toolchain'}
+            else:
+                want = dict(conf_env, ADDED='x y')
+            if got != want:
+                return self.fail(case, raw, 'command_sees_exactly_the_configured_variables',
+                                 unexpected={k: v for k, v in got.items() if want.get(k) != v},
+                                 missing={k: v for k, v in want.items() if k not in got})
+            return True
+        finally:
+            shutil.rmtree(top, ignore_errors=True)
+
+
 def registry():
     return [SetItem(), DelItem(), Clear(), Pop(), PopItem(), SetDefault(), Update(), IOr(), Reset(), Init(), FromJson(),
-            LazyChanges(), LoadToolchain(), EnvVarDictOps(), EnvSaveLoad(), ToolchainReplay()]
+            LazyChanges(), LoadToolchain(), EnvVarDictOps(), EnvSaveLoad(), ToolchainReplay(), RunInvocation()]
